@@ -1083,6 +1083,7 @@ def do_encrypt_obj(obj, sender=None, verify_all=True):
     prot_in = copy.deepcopy(obj.protected)
     unprot_in = copy.deepcopy(obj.unprotected)
     recs_in = [(copy.deepcopy(r.header), r.recipient_key, r.ephemeral_key, r.sender_key) for r in obj.recipients]
+    gen_flags = [bool(getattr(r, "_ephemeral_key_generated", False)) for r in obj.recipients]
     prior = [(k, bytes(v)) for k, v in obj.base64_segments.items()]
     aad_in, pt_in = obj.aad, obj.plaintext
     with recording() as rec:
@@ -1102,22 +1103,24 @@ def do_encrypt_obj(obj, sender=None, verify_all=True):
             civ = dm[0]
         else:
             cek = dm[0]
-    rdraws, ephs = [], []
-    for (h, _, eph0, _), a in zip(recs_in, algs):
-        kwiv, p2s, eph = b"", b"", eph0
+    rdraws, ephs, estates = [], [], []
+    for (h, _, eph0, _), a, gflag in zip(recs_in, algs, gen_flags):
+        kwiv, p2s, draw = b"", b"", None
         if isinstance(a, str) and a in GCMKW_ALGS and da:
             kwiv = da.pop(0)
         if isinstance(a, str) and a in PBES2_ALGS and "p2s" not in merged_headers(ser, prot_in, unprot_in, h) and da:
             p2s = da.pop(0)
-        if isinstance(a, str) and is_agreement(a) and eph is None and gen:
-            eph = gen.pop(0)
+        # a generation event belongs to the next key-agreement recipient that has no caller-set ephemeral key
+        if isinstance(a, str) and is_agreement(a) and (eph0 is None or gflag) and gen:
+            draw = gen.pop(0)
         rdraws.append((kwiv, p2s))
-        ephs.append(eph)
+        ephs.append(eph0)                       # the RAW state: what the object carried before the call
+        estates.append((eph0, gflag, draw))
     snd = sender if sender is not None else next((s for _, _, _, s in recs_in if s is not None), None)
     info = {"ser": ser, "protected": prot_in, "unprotected": unprot_in, "aad": aad_in, "plaintext": pt_in,
             "recips": [(h, k) for h, k, _, _ in recs_in], "sender": snd, "cek": cek, "civ": civ, "rdraws": rdraws,
             "ephs": ephs, "verify_all": verify_all, "names": None, "log": list(rec.log), "nondet": rec.nondet,
-            "prior": prior}
+            "prior": prior, "estates": estates}
     return obs, info
 
 
@@ -1128,7 +1131,11 @@ def case_enc_prior(obs, info):
     rest = base[len("CEncJson ") + len(table) + 1:]
     g, tail = rest.split(" ", 1)
     prior = c_list(["(%s, %s)" % (c_str(k), c_hex(v)) for k, v in info["prior"]])
-    return "CEncJsonPrior %s %s %s %s" % (table, g, prior, tail)
+
+    def c_eph(k):
+        return "None" if k is None else "(Some (%s, %s))" % (c_key(k), c_pv(k.as_dict(private=False)))
+    es = c_list(["(mk_ephstate %s %s %s)" % (c_eph(c), c_bool(f), c_eph(d)) for c, f, d in info["estates"]])
+    return "CEncJsonPrior %s %s %s %s %s" % (table, g, prior, es, tail)
 
 
 def content_aad_matches(log, token):
@@ -1238,8 +1245,14 @@ def sequence_checks(ctx, K, rng, cases, meta, bump, ref_decrypt=None, ref_encryp
                 keys.append(K.for_alg("A256KW", enc))
                 obj.add_recipient({"alg": "A256KW"}, keys[1])
             tag = "%s/%s/%s" % (alg, enc, ser)
+            preset = None
+            if is_agreement(alg) and ser == "general":
+                # the CALLER sets the ephemeral key: it is kept across encryptions (a generated one is not)
+                preset = K.curve_key("P-256", "alt")
+                obj.recipients[0].ephemeral_key = preset
+                tag += "/preset-epk"
             obs, info = do_encrypt_obj(obj)
-            verdict("first:" + tag, obj, obs, info, keys, prot)
+            tok1 = verdict("first:" + tag, obj, obs, info, keys, prot)
             obj.protected["zip"] = "DEF"
             prot = dict(prot, zip="DEF")
             obs, info = do_encrypt_obj(obj)
@@ -1255,7 +1268,23 @@ def sequence_checks(ctx, K, rng, cases, meta, bump, ref_decrypt=None, ref_encryp
                 obs, info = do_encrypt_obj(obj)
                 verdict("after-changing-enc:" + tag, obj, obs, info, keys, prot)
             obs, info = do_encrypt_obj(obj)
-            verdict("unchanged-again:" + tag, obj, obs, info, keys, prot)
+            tokn = verdict("unchanged-again:" + tag, obj, obs, info, keys, prot)
+            if is_agreement(alg) and tok1 and tokn:
+                def epk_of(t):
+                    h = dict(real_json.loads(b64d(t["protected"])))
+                    for it in (t.get("recipients") or [t]):
+                        h.update(it.get("header") or {})
+                        break
+                    return h.get("epk")
+                same = epk_of(tok1) == epk_of(tokn)
+                ctx.note_case(("sequence", "epk-reuse", tag))
+                if preset is None and same:
+                    ctx.violation({"kind": "sequence", "step": "epk-reused"},
+                                  "two encryptions of one object used the SAME library-generated ephemeral key (%s)" % tag,
+                                  {"label": tag})
+                if preset is not None and (not same or epk_of(tok1) != preset.as_dict(private=False)):
+                    ctx.violation({"kind": "sequence", "step": "preset-epk-dropped"},
+                                  "the ephemeral key set by the caller was not used / not kept (%s)" % tag, {"label": tag})
 
 
 def json_respaced(t):
